@@ -1265,6 +1265,17 @@ impl Compiler {
             // position of the instruction that comes after the 'then' statement
             self.patch_jump(jump_if_false_pos);
         }
+        // A filter runs once per packet, not when the enclosing function runs,
+        // so the locals of that function do not exist for it
+        if let Some(symbol) = self.symtab.free_symbols.first() {
+            return Err(CompileError::new(
+                &format!(
+                    "filter cannot use '{}', a local of the enclosing function",
+                    symbol.name
+                ),
+                expr.token.line,
+            ));
+        }
         // Get the number of locals and create the function
         let num_locals = self.symtab.get_num_definitions();
         let instructions = self.leave_scope();
